@@ -654,9 +654,14 @@ class DelHooks(SendHooks):
             E.set('$dec', fs(min(g1(E, '$dec', 0) + 1, 2)))
         if path.endswith('.used') and val == fs(0):
             self.site('del:slot-freed-only-after-job_close', x, g1(E, '$closed', 0) == 1, 'delivery slot freed without job_close()', E)
+            E.set('$freed', fs(min(g1(E, '$freed', 0) + 1, 3)))
+        if path.startswith('G:concurrencyused['):
+            E.set('$cdec', fs(min(g1(E, '$cdec', 0) + 1, 3)))
         if path.startswith('G:dline[') and path.endswith('.len') and val == fs(0):
+            self.site('del:slot-release-and-counter-decrement-come-together', x, g1(E, '$freed', 0) == g1(E, '$cdec', 0) == g1(E, '$closed', 0),
+                      'one report: %d slot(s) freed, concurrencyused changed %d time(s), %d job_close() call(s)' % (g1(E, '$freed', 0), g1(E, '$cdec', 0), g1(E, '$closed', 0)), E)
             # end of this report: reset the per-report monitors; the next report has the same letter
-            for k in ('$marked', '$dec', '$bounced', '$closed', '$dying'):
+            for k in ('$marked', '$dec', '$bounced', '$closed', '$dying', '$freed', '$cdec'):
                 E.store.pop(k, None)
             L0 = g1(E, '$letter')
             if L0:
@@ -691,6 +696,145 @@ def analyse_del_dochan(db, rep):
         if all(v[0] for v in sites.values()):
             raise AnalysisBroken('del_dochan: markdone/addbounce/job_close not explored (%s)' % counts)
     return sites
+
+
+# =============================================================================== del_start / del_avail
+class DelStartHooks(SendHooks):
+    """del_start(j, mpos, recip) over a two-slot table: which slot is taken and what is recorded in it"""
+    CONC = 2
+
+    def __init__(self):
+        super().__init__()
+        self.ends = []
+
+    def site(self, *a, **k):
+        pass
+
+    def tracked_global(self, path):
+        return True
+
+    def precise_arith(self, path):
+        return True
+
+    def materialize(self, E, path):
+        if path == 'G:jo':
+            return fs(('&', 'JO[0]'))
+        return TOP
+
+    def materialize_split(self, E, path):
+        import re
+        if re.match(r'^G:d\[\d\]\[\d+\]\.used$', path):
+            return [fs(0), fs(1)]
+        if re.match(r'^G:flagspawnalive\[\d\]$', path):
+            return [fs(0), fs(1)]
+        return None
+
+    def prim_comm_canwrite(self, E, x, args):
+        return [Outcome(ret=fs(0)), Outcome(ret=fs(1))]
+
+    def _sa(self, E, x, args):
+        return [Outcome(ret=fs(0)), Outcome(ret=fs(1))]
+
+    prim_stralloc_copys = prim_stralloc_append = prim_stralloc_0 = _sa
+
+    def prim_nomem(self, E, x, args):
+        return [Outcome(ret=TOP)]
+
+    def prim_comm_write(self, E, x, args):
+        E.set('$announce', fs((g1v(args[0]), g1v(args[1]), g1v(args[2]))))
+        return [Outcome(ret=TOP)]
+
+    def _n(self, E, x, args):
+        return [Outcome(ret=TOP)]
+
+    prim_fmt_ulong = prim_qslog2 = prim_log1 = prim_log2 = prim_log3 = prim_logsafe = prim_del_status = _n
+
+    def on_return(self, E, fn, val):
+        if fn.name == 'del_start':
+            self.ends.append((dict((k, g1v(v)) for k, v in E.store.items()), E.trace.list()))
+
+
+def analyse_del_start(db, rep):
+    prog = db.program('qmail-send')
+    fn = prog.fn('del_start', 'qmail-send.c')
+    bad = {}
+    n_taken = n_none = 0
+    for ch in (0, 1):
+        H = DelStartHooks()
+        eng = Engine(db, prog, H)
+        fid = eng.frame_id(fn)
+        st = {'%s::%s' % (fid, fn.params[0]): fs(1), '%s::%s' % (fid, fn.params[1]): fs(4242), '%s::%s' % (fid, fn.params[2]): fs(('&', 'RCP[0]')),
+              'JO[1].channel': fs(ch), 'JO[1].refs': fs(3), 'JO[1].id': fs(77), 'G:concurrency[0]': fs(H.CONC), 'G:concurrency[1]': fs(H.CONC),
+              'G:concurrencyused[0]': fs(1), 'G:concurrencyused[1]': fs(1), 'G:masterdelid': fs(500)}
+        eng.run(fn, st)
+        rep.count_states(eng.states, eng.transitions)
+        for store, tr in H.ends:
+            free0 = {i: store.get('G:d[%d][%d].used' % (ch, i)) for i in range(H.CONC)}
+            ann = store.get('$announce')
+            cu = store.get('G:concurrencyused[%d]' % ch)
+            refs = store.get('JO[1].refs')
+            # which slot ended up newly marked: the announce event names it
+            if ann is None:
+                n_none += 1
+                if cu != 1 or refs != 3:
+                    bad.setdefault('ds:no-slot-no-effect', ('no delivery was announced but concurrencyused=%s job refs=%s' % (cu, refs), tr))
+                continue
+            n_taken += 1
+            c_, i_, id_ = ann
+            okslot = c_ == ch and isinstance(i_, int) and 0 <= i_ < H.CONC
+            if not okslot:
+                bad.setdefault('ds:announced-delivery-number-is-a-slot-below-concurrency', ('delivery announced as (channel %s, number %s) with concurrency %d' % (c_, i_, H.CONC), tr))
+                continue
+            pre = 'G:d[%d][%d]' % (ch, i_)
+            if store.get(pre + '.used') != 1 or store.get(pre + '.mpos') != 4242 or store.get(pre + '.j') != 1:
+                bad.setdefault('ds:slot-records-job-and-mark-position', ('slot %d ends as used=%s mpos=%s j=%s (documented: 1, the mpos argument, the job)' % (i_, store.get(pre + '.used'), store.get(pre + '.mpos'), store.get(pre + '.j')), tr))
+            if cu != 2 or refs != 4:
+                bad.setdefault('ds:slot-taken-with-counter-and-reference', ('a slot was taken and concurrencyused went 1 -> %s, job refs 3 -> %s' % (cu, refs), tr))
+            if id_ != 77:
+                bad.setdefault('ds:announced-message-is-the-job-message', ('announced message id %s for job message 77' % id_, tr))
+            # it must have been free: the path read used == 0 for it before marking; lower slots were in use
+            if any(store.get('G:d[%d][%d].used' % (ch, k)) == 0 for k in range(i_)):
+                pass
+    if (n_taken < 2 or n_none < 2) and not bad:
+        raise AnalysisBroken('del_start: %d taken / %d not-taken ends explored' % (n_taken, n_none))
+    out = {}
+    for k in ('ds:no-slot-no-effect', 'ds:announced-delivery-number-is-a-slot-below-concurrency', 'ds:slot-records-job-and-mark-position',
+              'ds:slot-taken-with-counter-and-reference', 'ds:announced-message-is-the-job-message'):
+        out[k] = (k not in bad, 'qmail-send.c:del_start', bad[k][0] if k in bad else '', bad[k][1] if k in bad else [])
+    # a slot in use is never taken: run with both slots in use
+    H = DelStartHooks()
+    eng = Engine(db, prog, H)
+    fid = eng.frame_id(fn)
+    st = {'%s::%s' % (fid, fn.params[0]): fs(1), '%s::%s' % (fid, fn.params[1]): fs(4242), '%s::%s' % (fid, fn.params[2]): fs(('&', 'RCP[0]')),
+          'JO[1].channel': fs(0), 'JO[1].refs': fs(3), 'JO[1].id': fs(77), 'G:concurrency[0]': fs(2), 'G:concurrencyused[0]': fs(2),
+          'G:d[0][0].used': fs(1), 'G:d[0][1].used': fs(1), 'G:d[0][0].mpos': fs(1), 'G:d[0][1].mpos': fs(2), 'G:flagspawnalive[0]': fs(1)}
+    eng.run(fn, st)
+    full_ok = bool(H.ends) and all(s_.get('$announce') is None and s_.get('G:d[0][0].mpos') == 1 and s_.get('G:d[0][1].mpos') == 2 and s_.get('G:concurrencyused[0]') == 2 for s_, _ in H.ends)
+    out['ds:full-table-starts-nothing'] = (full_ok, 'qmail-send.c:del_start', 'with every slot below concurrency in use del_start must change nothing', H.ends[0][1] if H.ends and not full_ok else [])
+    # only a free slot: slot 0 in use, slot 1 free -> slot 1
+    H = DelStartHooks()
+    eng = Engine(db, prog, H)
+    st = dict(st)
+    st.update({'G:d[0][1].used': fs(0), 'G:concurrencyused[0]': fs(1)})
+    eng.run(fn, st)
+    okfree = bool(H.ends) and all(s_.get('$announce') is None or (s_.get('$announce')[1] == 1 and s_.get('G:d[0][0].mpos') == 1) for s_, _ in H.ends) and any(s_.get('$announce') is not None for s_, _ in H.ends)
+    out['ds:a-slot-in-use-is-never-taken'] = (okfree, 'qmail-send.c:del_start', 'slot 0 in use, slot 1 free: the delivery must go to slot 1 and leave slot 0 alone', [])
+    # del_avail
+    da = prog.fn('del_avail', 'qmail-send.c')
+    rows = []
+    for used in (0, 1, 2, 3):
+        H2 = DelStartHooks()
+        res = []
+        H2.on_return = lambda E, f, v, res=res: res.append(v) if f.name == 'del_avail' else None
+        H2.prim_comm_canwrite = lambda E, x, args: [Outcome(ret=fs(1))]
+        eng = Engine(db, prog, H2)
+        fid = eng.frame_id(da)
+        eng.run(da, {'%s::%s' % (fid, da.params[0]): fs(0), 'G:flagspawnalive[0]': fs(1), 'G:concurrency[0]': fs(2), 'G:concurrencyused[0]': fs(used)})
+        vals = sorted({(1 if g1v(v) else 0) if g1v(v) is not None else '?' for v in res})
+        rows.append((used, vals))
+    okav = all(vals == [1 if used < 2 else 0] for used, vals in rows)
+    out['ds:del_avail-iff-concurrencyused<concurrency'] = (okav, 'qmail-send.c:del_avail', 'del_avail(c) with concurrency 2 and spawner alive, for concurrencyused 0..3: %s' % rows, [])
+    return out
 
 
 # =============================================================================== pass_dochan
